@@ -1022,7 +1022,20 @@ class Interp:
             self.log[-1]["r_hi"] = st.interval(r.lin)[1]
             self.log[-1]["r_lo"] = st.interval(r.lin)[0]
         good = self.branch(st, c.e, want)
+        if bad and not self.log_last_ok(frame, bb):
+            # the continuing path relies on a run-time check that did not discharge statically (and that
+            # release builds compile out for overflow checks): remember it on the path
+            for s2 in good:
+                wd = l.w if ak == "Overflow" else 0
+                if wd >= 64:
+                    continue      # 64-bit counters are covered by rule U / A3, they do not wrap in practice
+                s2.ghost["unproved-asserts"] = s2.ghost.get("unproved-asserts", ()) + ((frame.body["def"], bb, ak),)
         return [("goto", t["target"], s2) for s2 in good]
+
+    def log_last_ok(self, frame, bb):
+        if self.log and self.log[-1].get("t") == "obl" and self.log[-1].get("bb") == bb and self.log[-1].get("fn") == frame.body["def"]:
+            return self.log[-1]["ok"]
+        return False
 
     # =============================================================== calls
     def exec_call(self, frame, bb, t, st):
